@@ -16,6 +16,20 @@ def tokens_of(jv, rnd, style):
     return [p for p in out if p]
 
 
+# multi-byte material for comment bodies: other scripts' line terminators (U+2028, U+2029, NEL), NBSP, BOM, form feed, vertical tab,
+# DEL, a 4-byte character, stray continuation bytes - none of them ends a comment or is a blank
+ODD = [b"\xe2\x80\xa8", b"\xe2\x80\xa9", b"\xc2\x85", b"\xc2\xa0", b"\xef\xbb\xbf", b"\x0c", b"\x0b", b"\x7f", b"\xf0\x9f\x98\x80", b"\x80", b"\xff", b"\x01", b"\xc3\xa9"]
+
+
+def odd_body(rnd, alphabet, n, forbidden):
+    out = b""
+    for _ in range(n):
+        out += rnd.choice(ODD) if rnd.random() < 0.25 else bytes([rnd.choice(alphabet)])
+    for f in forbidden:
+        out = out.replace(f, b"")
+    return out
+
+
 def gap(rnd, final=False):
     """a run of blanks and comments"""
     items = []
@@ -25,10 +39,14 @@ def gap(rnd, final=False):
             items.append(bytes(rnd.choice(b" \t\r\n") for _ in range(rnd.randint(1, 3))))
         elif k < 0.72:
             body = bytes(rnd.choice(b'ab "\\/*\t\r{}[]:,') for _ in range(rnd.randint(0, 8)))
+            if rnd.random() < 0.3:
+                body = odd_body(rnd, b'ab "\\/*\t\r{}[]:,1', rnd.randint(1, 10), [b"\n"])
             # a line comment ends at LF (a lone CR does not end it); CRLF endings occur too
             items.append(b"//" + body + rnd.choice([b"\n", b"\n", b"\r\n"]))
         else:
             body = bytes(rnd.choice(b'ab "\\/*\n{}[]:,') for _ in range(rnd.randint(0, 8)))
+            if rnd.random() < 0.25:
+                body = odd_body(rnd, b'ab "\\/*\n{}[]:,1', rnd.randint(1, 10), [])
             if rnd.random() < 0.3:
                 # runs of stars next to the delimiters: /***/, /** doc **/
                 body = b"*" * rnd.randint(0, 3) + body + b"*" * rnd.randint(0, 4)
